@@ -36,7 +36,11 @@ Values == <<
   [src |-> "2d1",   n |-> 2,  d |-> 1, int |-> TRUE],
   [src |-> "3d1k2", n |-> 2,  d |-> 1, int |-> TRUE],
   [src |-> "(1+2)", n |-> 3,  d |-> 1, int |-> TRUE],
-  [src |-> "(2*3)", n |-> 6,  d |-> 1, int |-> TRUE]>>
+  [src |-> "(2*3)", n |-> 6,  d |-> 1, int |-> TRUE],
+  \* amounts below zero: "name-(1-3)" is the expression -(1-3) = 2, normalised back to the written amount -2 with op "-"
+  \* (taking the magnitude instead of negating reports 2); likewise for a float
+  [src |-> "(1-3)", n |-> 0 - 2, d |-> 1, int |-> TRUE],
+  [src |-> "(0-1.5)", n |-> 0 - 3, d |-> 2, int |-> FALSE]>>
 
 Mults == <<[src |-> "2", n |-> 2, d |-> 1, int |-> TRUE], [src |-> "1.5", n |-> 3, d |-> 2, int |-> FALSE], [src |-> "(3)", n |-> 3, d |-> 1, int |-> TRUE]>>
 
